@@ -809,6 +809,37 @@ func (m *Machine) OpImportKey(t *rapid.T) {
 	m.N["import-key"]++
 }
 
+// OpImportPubKey imports a public key without its private key (allowed in
+// every lock state): the address is the key's address in the scope's external
+// format and never yields a private key.
+func (m *Machine) OpImportPubKey(t *rapid.T) {
+	s := m.drawScope(t)
+	wif := m.nextWIF(t, true)
+	pub := wif.PrivKey.PubKey()
+	var ma waddrmgr.ManagedAddress
+	err, committed := m.Tx(m.takeFate(), func(ns walletdb.ReadWriteBucket) error {
+		var err error
+		ma, err = m.scoped(s.Scope).ImportPublicKey(ns, pub, m.importStamp())
+		return err
+	})
+	m.Case.Logf("import-pubkey scope=%v locked=%v -> %v", s.Scope, m.Locked, err)
+	if err != nil {
+		m.Violation("ImportPublicKey failed: %v", err)
+	}
+	if !committed {
+		return
+	}
+	want, aerr := bip32ref.Address(pub.SerializeCompressed(), s.ExtKind, m.Params)
+	if aerr != nil {
+		m.Inconclusive("oracle address: %v", aerr)
+	}
+	if ma.Address().EncodeAddress() != want.EncodeAddress() {
+		m.Violation("imported public key: address %s, expected %s", ma.Address().EncodeAddress(), want.EncodeAddress())
+	}
+	m.Imports = append(m.Imports, &Imported{Scope: s.Scope, Addr: want.EncodeAddress(), Address: want, Script: pub.SerializeCompressed(), Kind: "pubkey", Compressed: true})
+	m.N["import-pubkey"]++
+}
+
 // OpImportScript imports a P2SH or witness script.
 func (m *Machine) OpImportScript(t *rapid.T) {
 	s := m.drawScope(t)
